@@ -180,7 +180,21 @@ func exec11on(in *inst11, tr *Trace11, probe func(string)) (string, *fail) {
 			err = e
 			return
 		}
-		res, e := in.rd.Decode(bmp, nil)
+		// optional hints an application may pass (a pure function of the trace)
+		var hints map[gozxing.DecodeHintType]interface{}
+		if hsel := (tr.EncSeed >> 7) % 4; hsel != 0 {
+			hints = map[gozxing.DecodeHintType]interface{}{}
+			npts := 0
+			if hsel&1 != 0 {
+				hints[gozxing.DecodeHintType_NEED_RESULT_POINT_CALLBACK] = gozxing.ResultPointCallback(func(gozxing.ResultPoint) { npts++ })
+			}
+			if hsel&2 != 0 {
+				hints[gozxing.DecodeHintType_TRY_HARDER] = true
+				hints[gozxing.DecodeHintType_CHARACTER_SET] = "ISO-8859-1"
+			}
+			probe("probe.reader_given_optional_hints")
+		}
+		res, e := in.rd.Decode(bmp, hints)
 		if e != nil {
 			err = e
 			return
